@@ -1,5 +1,5 @@
 """C12 — SIMD evaluation equals scalar evaluation for every size, shape and layout."""
-import hashlib, itertools, os, re
+import hashlib, itertools, math, os, re, struct
 from collections import Counter
 
 ID = "C12"
@@ -32,7 +32,12 @@ RULE = ("index level: every column count 1..4N+1 x rows 1..3 x all 16 (lhs,rhs) 
         "same-shape for every element count 1..4N+1 (1-d and folded 2-d/3-d shapes), every 2-d broadcast pattern with cols 1..2N+1, "
         "outer, add/multiply reductions over every axis / None / keepdims (ct and run time) with integer-valued data so that "
         "re-association is exact; streams aimed at past and present defects: (1,1) operands, multiply with a one-element result, "
-        "negative axes, rank mismatch / n-d broadcast, initial, column-major (all six repaired), special values. non-trivial = more than N elements or a 2-d+ shape; distinct = distinct case lines")
+        "negative axes, rank mismatch / n-d broadcast, initial, column-major (all six repaired), special values. Adversarial "
+        "lane-function stream (unaryx / binaryx, values given as double bit patterns): every unary op x context x {float,double} on ~365 "
+        "values (1 ulp(float) and 1 ulp(double) around integers and .5 up to 2^53+2 and 1e15, inside float epsilon of integers, "
+        "denormals, +-0, +-inf, NaN, +-1e300, float overflow) and every binary op on 50 operand pairs whose float-narrowed images differ "
+        "from the doubles / cancel / overflow / underflow; covering windows put each value in a packed lane AND in a tail position "
+        "(quick), thorough adds every size 1..4N+1 with random offsets; order shuffled by VERIF_SEED. non-trivial = more than N elements or a 2-d+ shape; distinct = distinct case lines")
 THEOREM_STATUS = {"proved": ["C12_unary_eq_map", "C12_binary_same_eq", "C12_binary_2d_covers_once", "C12_binary_2d_eq_on_domain",
                              "C12_no_UB", "C12_reduce_full_on_domain", "C12_reduce_horizontal_core", "C12_reduce_vertical_core",
                              "C12_binary_refused_falls_back", "C12_not_row_major_falls_back"],
@@ -40,7 +45,7 @@ THEOREM_STATUS = {"proved": ["C12_unary_eq_map", "C12_binary_same_eq", "C12_bina
                               "not proved", "lane operations of the six contexts: modelled as N-lane maps of f, not verified"],
                   "refuted": []}
 ASSUMPTIONS = ["the lane operation of every context is the N-lane map of the scalar operation (intrinsics / vector extensions / SIMDe "
-               "are not verified; compared bit for bit on the explored inputs only)",
+               "are not verified; probed bit for bit per (context, dtype, op) with adversarial values in packed and tail positions on every run)",
                "reductions: 'equal up to re-association' is made precise as equality for associative-commutative f with identity; the "
                "differential runs use integer-valued data whose partial results are exact, so any association gives the same bits"]
 TRUSTED_EXTRA = ["OCaml float arithmetic as the reference scalar operation (binary32 emulated by rounding binary64 results; exact for "
@@ -75,14 +80,15 @@ def _spec(ctx, flavour):
     return (src, flavour, extra)
 
 
-# driver groups: at most 4 translation units are compiled concurrently
+# driver groups: at most 3 translation units are compiled concurrently
 def _groups(tier):
-    g = {"c12_a": [("avx", "ndebug"), ("avx", "asan"), ("ix", "ndebug"), ("ix", "asan")],
-         "c12_b": [("sse", "ndebug"), ("v128", "ndebug"), ("v256", "ndebug"), ("v512", "ndebug")],
-         "c12_c": [("simde", "ndebug"), ("none", "ndebug")]}
+    g = {"c12_a": [("avx", "ndebug"), ("avx", "asan"), ("ix", "ndebug")],
+         "c12_b": [("ix", "asan"), ("sse", "ndebug"), ("v128", "ndebug")],
+         "c12_c": [("v256", "ndebug"), ("v512", "ndebug"), ("simde", "ndebug")],
+         "c12_d": [("none", "ndebug")]}
     if tier == "thorough":
-        g["c12_c"] += [("sse", "asan"), ("v512", "asan")]
-        g["c12_d"] = [("simde", "asan"), ("v128", "asan"), ("v256", "asan")]
+        g["c12_d"] += [("sse", "asan"), ("v512", "asan")]
+        g["c12_e"] = [("simde", "asan"), ("v128", "asan"), ("v256", "asan")]
     return g
 
 
@@ -118,6 +124,104 @@ def bc_patterns(R, C):
         for r in sorted(cand):
             if (max(l[0], r[0]), max(l[1], r[1])) == (R, C): out.append((l, r))
     return out
+
+
+# ---- adversarial values: the lane operation of each (context, dtype, op) is probed where a wrong precision, a wrong
+# rounding or a wrong special-value rule would show (a lane function that narrows double -> float, or that treats
+# -0.0 / NaN / denormals / > 2^24 / > 2^53 differently from the scalar functor)
+def _hexd(x): return struct.pack(">d", x).hex()
+def _f32(x):
+    try: return struct.unpack("f", struct.pack("f", x))[0]
+    except OverflowError: return math.copysign(math.inf, x)
+def _next32(x, up):
+    x = _f32(x)
+    if x != x or math.isinf(x): return x
+    if x == 0.0: return math.copysign(1.401298464324817e-45, 1.0 if up else -1.0)
+    b = struct.unpack("I", struct.pack("f", x))[0]
+    b += 1 if (x > 0) == up else -1
+    return struct.unpack("f", struct.pack("I", b))[0]
+
+
+def adversarial_unary():
+    vals = []
+    def add(x): vals.append(float(x))
+    bases = [0, 1, 2, 6, 7, 41, 128, 1000, 2 ** 24 - 1, 2 ** 24, 2 ** 24 + 1, 2 ** 31, 2 ** 52, 2 ** 53, 2 ** 53 + 2, 10 ** 15]
+    for k in bases:
+        for sgn in (1.0, -1.0):
+            for c in (float(k), k + 0.5):
+                v = sgn * c
+                add(v); add(math.nextafter(v, math.inf)); add(math.nextafter(v, -math.inf))      # 1 ulp(double)
+                if abs(v) < 3e38: add(_next32(v, True)); add(_next32(v, False))                  # 1 ulp(float)
+            v = sgn * k
+            add(v + 1e-10); add(v - 1e-10); add(v + 5e-11 * max(1, k)); add(v - 5e-11 * max(1, k))   # inside float epsilon, outside double's
+    for x in (7.00000000005, -0.9999999999, -41.9999999999, 128.0000000001, 1e15 + 0.5, 2.0 ** 52 + 0.5, 0.49999999999999994,
+              -0.49999999999999994, 0.1, -3.7, 1.25, 5.999999999, 6.000000001,
+              5e-324, -5e-324, 1e-310, -1e-310, 2.2250738585072014e-308, 1.401298464324817e-45, -1.401298464324817e-45,
+              1.1754943508222875e-38, 1e-40, 0.0, -0.0, math.inf, -math.inf, math.nan, 1e300, -1e300, 3.4e38, -3.4e38,
+              3.5e38, -3.5e38, 1.7976931348623157e308, -1.7976931348623157e308, 4294967296.5, -4294967296.5):
+        add(x)
+    seen = set(); out = []
+    for v in vals:
+        h = _hexd(v)
+        if h not in seen: seen.add(h); out.append(h)
+    return out
+
+
+def adversarial_binary():
+    e30 = 2.0 ** -30
+    pairs = [(1 + e30, 1.0), (1.0, 1 + e30), (1 + e30, 1 + e30), (16777217.0, 1.0), (16777216.0, 1.0), (16777217.0, 16777217.0),
+             (2.0 ** 53, 1.0), (2.0 ** 53 + 2, -2.0 ** 53), (0.1, 0.2), (1.0, 3.0), (1.0, 3 + 2.0 ** -40), (2.0, 3.0), (1e300, 1e10), (1e-300, 1e-10),
+             (1e30, 1e-30), (-1e30, 1e30), (3e38, 3e38), (3e38, 1e-38), (1e-38, 1e-38), (1e-45, 1e-45), (5e-324, 2.0), (5e-324, 5e-324), (1e-310, 1e10),
+             (math.inf, math.inf), (math.inf, -math.inf), (0.0, math.inf), (0.0, -0.0), (-0.0, -0.0), (-0.0, 0.0), (0.0, 0.0), (1.0, 0.0), (-1.0, 0.0),
+             (1.0, -0.0), (math.nan, 1.0), (1.0, math.nan), (math.inf, 0.0), (7.00000000005, 7.0), (-0.9999999999, 1.0), (0.5, 0.49999999999999994),
+             (1.0000001, 0.9999999), (123456789.0, 987654321.0), (1.0e15 + 0.5, 0.5), (2.0 ** 24 + 1, 2.0 ** 24 - 1), (1 + 2.0 ** -23, 1 - 2.0 ** -24),
+             (1 + 2.0 ** -52, 1 - 2.0 ** -53), (3.0, 1 + 2.0 ** -23), (-7.5, 2.5), (1e20, 1.0), (1.0, 1e20), (4.0, 0.1)]
+    return [(_hexd(a), _hexd(b)) for a, b in pairs]
+
+
+def _windows(vals, N, rng):
+    """lines of 2N-1 values = one full pack + a tail of N-1.  Pass 1 (windows starting at multiples of N) puts every value in
+    a packed lane and the values of index residue 0..N-2 in a tail position; pass 2 (shifted by one) covers residue N-1"""
+    v = list(vals); rng.shuffle(v)
+    if N == 1: return [v[i:i + 3] for i in range(0, len(v), 3)]
+    ext = v + v[:2 * N]
+    return [ext[i + shift:i + shift + 2 * N - 1] for shift in (0, 1) for i in range(0, len(v), N)]
+
+
+def gen_adversarial(rng, tier, add):
+    UN = ["sqrt", "ceil", "floor", "relu", "relu6"]
+    BIN = ["add", "subtract", "multiply", "divide"]
+    uv = adversarial_unary(); bv = adversarial_binary()
+    for ctx in ["sse", "avx", "v128", "v256", "v512", "simde", "none"]:
+        for dt in ("f32", "f64"):
+            N = lanes(ctx, dt) if ctx != "none" else 4
+            for op in UN:
+                if ctx == "none":
+                    add("adversarial_unary", "unaryx S:%s S:%s S:%s L:%d S:%s" % (ctx, dt, op, len(uv), ",".join(uv)), ctx); continue
+                # tail position t of a window line holds value index i+N+t: two passes with different shuffles put every value
+                # in a packed lane (pass 1 windows step by N) and, with overwhelming multiplicity, in tail positions
+                for w in _windows(uv, N, rng):
+                    add("adversarial_unary", "unaryx S:%s S:%s S:%s L:%d S:%s" % (ctx, dt, op, len(w), ",".join(w)), ctx)
+                if tier == "thorough":
+                    for n in range(1, 4 * N + 2):
+                        off = rng.randrange(len(uv))
+                        w = [uv[(off + i) % len(uv)] for i in range(n)]
+                        add("adversarial_unary", "unaryx S:%s S:%s S:%s L:%d S:%s" % (ctx, dt, op, n, ",".join(w)), ctx)
+            for op in BIN:
+                if ctx == "none":
+                    add("adversarial_binary", "binaryx S:%s S:%s S:%s L:%d S:%s L:%d S:%s" % (ctx, dt, op, len(bv), ",".join(a for a, _ in bv), len(bv), ",".join(b for _, b in bv)), ctx); continue
+                for w in _windows(bv, N, rng):
+                    add("adversarial_binary", "binaryx S:%s S:%s S:%s L:%d S:%s L:%d S:%s" % (ctx, dt, op, len(w), ",".join(a for a, _ in w), len(w), ",".join(b for _, b in w)), ctx)
+                # 2-d broadcast arm and scalar-broadcast lanes: (2,C) op (1,C), (2,C) op (2,1)
+                C = 2 * N + 1
+                w = [bv[(rng.randrange(len(bv)) + i) % len(bv)] for i in range(2 * C)]
+                add("adversarial_binary", "binaryx S:%s S:%s S:%s L:2,%d S:%s L:1,%d S:%s" % (ctx, dt, op, C, ",".join(a for a, _ in w), C, ",".join(b for _, b in w[:C])), ctx)
+                add("adversarial_binary", "binaryx S:%s S:%s S:%s L:2,%d S:%s L:2,1 S:%s" % (ctx, dt, op, C, ",".join(a for a, _ in w), ",".join(b for _, b in w[:2])), ctx)
+                if tier == "thorough":
+                    for n in range(1, 4 * N + 2):
+                        off = rng.randrange(len(bv))
+                        w = [bv[(off + i) % len(bv)] for i in range(n)]
+                        add("adversarial_binary", "binaryx S:%s S:%s S:%s L:%d S:%s L:%d S:%s" % (ctx, dt, op, n, ",".join(a for a, _ in w), n, ",".join(b for _, b in w)), ctx)
 
 
 def gen_cases(rng, tier):
@@ -232,6 +336,7 @@ def gen_cases(rng, tier):
             add("special_values", "unary S:%s S:%s S:relu I:1 %s" % (ctx, dt, A((N + 2,), sp[:N + 2])), ctx)
             add("special_values", "unary S:%s S:%s S:floor I:1 %s" % (ctx, dt, A((N + 2,), sp[:N + 2])), ctx)
             add("special_values", "binary S:%s S:%s S:multiply I:1 %s %s" % (ctx, dt, A((N + 2,), sp[:N + 2]), A((N + 2,), sp[1:N + 3])), ctx)
+    gen_adversarial(rng, tier, add)
     return out
 
 
@@ -241,6 +346,8 @@ def _arrs(line): return [tuple(int(x) for x in m.split(",")) for m in re.findall
 def nontrivial(line):
     if line.startswith("ix_"):
         return any(len([x for x in m.split(",") if x]) >= 2 for m in re.findall(r"L:([0-9,]*)", line))
+    if line.startswith(("unaryx", "binaryx")):
+        return any(prod([int(x) for x in m.split(",") if x]) > 4 for m in re.findall(r"L:([0-9,]*)", line))
     shp = _arrs(line)
     return any(len(s) >= 2 and prod(s) > 1 for s in shp) or any(prod(s) > 4 for s in shp)
 
@@ -258,10 +365,35 @@ def distribution(streams):
 def _norm(s): return " ".join(s.split())
 
 
+def _elems(res):
+    """('shape', [elements]) of an 'ok shape ; e,e,...' result, else None"""
+    m = re.match(r"\s*ok\s*([0-9,]*)\s*;\s*(.*)$", res)
+    if not m: return None
+    return m.group(1), [x for x in m.group(2).replace(" ", "").split(",") if x]
+
+
+def _negzero_or_nan_positions(t):
+    """positions of a unary / unaryx case line whose input element (after the cast to the dtype) is -0.0 or NaN"""
+    f32 = t[2] == "S:f32"
+    if t[0] == "unary":
+        data = t[5].split(":")[2].split(",")
+        return {i for i, x in enumerate(data) if x in ("900001", "900004")}
+    out = set()
+    for i, h in enumerate(t[5][2:].split(",")):
+        v = struct.unpack(">d", bytes.fromhex(h))[0]
+        if f32: v = _f32(v)
+        if v != v or (v == 0.0 and math.copysign(1.0, v) < 0): out.add(i)
+    return out
+
+
 def classify(line, impl, spec, model):
     t = line.split(" ")
     op = t[0]
-    if op in ("unary", "binary", "outer", "reduce") and t[1] == "S:none": return None
-    if op == "unary" and t[3] in ("S:relu", "S:relu6") and re.search(r"90000[14]", line):
-        return "relu_lane_op_differs_on_negzero_nan"
+    if t[1] == "S:none": return None
+    # the one open class, kept tight: relu / relu6 only, and every differing element sits on a -0.0 or NaN input
+    if op in ("unary", "unaryx") and t[3] in ("S:relu", "S:relu6"):
+        a, b = _elems(impl), _elems(spec)
+        if not a or not b or a[0] != b[0] or len(a[1]) != len(b[1]): return None
+        diff = {i for i, (x, y) in enumerate(zip(a[1], b[1])) if x != y}
+        if diff and diff <= _negzero_or_nan_positions(t): return "relu_lane_op_differs_on_negzero_nan"
     return None
